@@ -778,7 +778,7 @@ func (c *c09) Summary(w *sim.World) (string, []string) {
 }
 
 var C09 = register(&HistProp{ID: "C09",
-	Genesis: func(t *rapid.T) *sim.GenSpec { return sim.DrawGenesis(t, sim.GenOpts{BigBalances: true, Decoys: true}) },
+	Genesis: func(t *rapid.T) *sim.GenSpec { return sim.DrawGenesis(t, sim.GenOpts{BigBalances: true, Decoys: true, NoAttesters: true}) },
 	Next: func(g *sim.G, i int) *sim.Op {
 		return Mix{Send: 5, Dep: 5, Replace: 7, RepDep: 7, Admin: 4, DepValid: 92, ReplaceValid: 50, AdminHolder: 90, Rollback: 5, AttProbe: 3, MsgrProbe: 3,
 			AdminTypes: []string{"PauseBurningAndMinting", "UnpauseBurningAndMinting", "UnpauseBurningAndMinting", "PauseSendingAndReceivingMessages", "UnpauseSendingAndReceivingMessages", "UnpauseSendingAndReceivingMessages",
